@@ -1,6 +1,6 @@
-(* C05 — concurrent calls are linearizable and keys do not interfere (partial: see the hypothesis). *)
+(* C05 — concurrent calls are linearizable and keys do not interfere (under the hypothesis: no two concurrent WRITERS of one key). *)
 From Coq Require Import List NArith.
-From STH Require Import Lex Index Store Refine Conc.
+From STH Require Import Lex Index Store Refine Conc Conc2.
 Import ListNotations.
 Open Scope N_scope.
 
@@ -18,3 +18,20 @@ Theorem C05_linearizable_partial :
     R bits U s' m' /\ forall t r lin, nth_error ps t = Some (Done r lin) -> r = lin.
 Proof. exact conc_linearizable. Qed.
 Print Assumptions C05_linearizable_partial.
+
+(* Put (new key / overwrite / identical value / rejected in immutable mode), Get and Remove as programs of atomic steps,
+   one per critical section of the real code (index lookup under the bucket lock | primary read outside it | primary
+   pool append | index insert / update / remove); ghost state = the specification map, changed only at linearization
+   points.  For ANY number of threads, ANY schedule (list of thread numbers) and either immutable mode, if no two
+   WRITERS address the same key ([init_ok2]): every completed call returned exactly what the specification answered at
+   its linearization point - in particular no call fails and no call changes or hides another key - and the shared
+   state is related to the specification map.  Readers may race with the writer of their own key.
+   Missing relative to the full property: Has/GetSize programs (same shape as Get), the multi-step Flush, and same-key
+   concurrent writers, for which the property is FALSE on the code (recorded finding, known_findings.json). *)
+Theorem C05_linearizable_put_get_remove :
+  forall imm bits (U : bytes -> Prop), unrelated bits U ->
+  forall s m calls sched, init_ok2 bits U s m calls ->
+    let '(s', m', ps) := exec2 imm (s, m, map QStart calls) sched in
+    R bits U s' m' /\ forall t r lin, nth_error ps t = Some (QDone r lin) -> r = lin.
+Proof. exact conc_linearizable2. Qed.
+Print Assumptions C05_linearizable_put_get_remove.
